@@ -37,11 +37,16 @@ def plan(tier, seed):
                 for s in range(2):
                     shards.append({"interp": interp, "leg": "random", "mode": mode, "seed": seed, "start": s * 150,
                                    "count": 150, "runs": 3, "budget_s": 40})
+                # templates: every exit kind x last statement x nesting, here under an enclosing with + loop
+                shards.append({"interp": interp, "leg": "templates", "mode": mode, "seed": seed, "start": 0,
+                               "count": 500, "runs": 3, "budget_s": 40, "surrounds": ["withfor", "withwhile"]})
         else:
             for mode in ("suspended", "running"):
                 for s in range(3):
                     shards.append({"interp": interp, "leg": "random", "mode": mode, "seed": seed, "start": s * 3000,
                                    "count": 3000, "runs": 4, "budget_s": 1500})
+                shards.append({"interp": interp, "leg": "templates", "mode": mode, "seed": seed, "start": 0,
+                               "count": 6000, "runs": 3, "budget_s": 1500})
             shards.append({"interp": interp, "leg": "static", "seed": seed})
     return shards
 
